@@ -56,8 +56,19 @@ SCRIPTS = {
 }
 
 
+LAZY_SCRIPTS = {
+    # the application queues several calls before it flushes, flushes partially, unbinds with output pending
+    "lazy_unbind": ["c_search", "c_unbind", "f_c", "d_cs_all"],
+    "lazy_partial_unbind": ["c_ext", "f_c_part", "c_unbind", "f_c", "d_cs_1", "d_cs_all"],
+    "lazy_pipeline": ["c_search", "c_ext", "f_c_part", "d_cs_all", "f_c", "d_cs_all", "s_final", "s_entry", "s_final", "f_s_part", "d_sc_all", "f_s", "d_sc_all"],
+    "lazy_server_unbind": ["c_ext", "f_c", "d_cs_all", "s_final", "s_unbind", "f_s", "d_sc_all"],
+}
+
+
 def units(tier):
     us = []
+    for n, seq in LAZY_SCRIPTS.items():
+        us.append({"name": "script_" + n, "shape": {"acts": seq, "autoflush": False}})
     k = 3 if tier == "quick" else 4
     for seq in itertools.product(ACTIONS, repeat=k):
         us.append({"name": "bmc_" + "+".join(seq), "shape": {"acts": list(seq)}})
@@ -91,6 +102,8 @@ def body(ctx, shape):
     pending = []                     # (id, kind) of requests the server application has seen
     binds = 0
     term = [False]                   # a designed termination happened (in-flight messages may be dropped)
+    autoflush = shape.get("autoflush", True)
+    queued = {"cs": b"", "sc": b""}  # (lazy mode) what each side has queued but not put on the wire
 
     def app(fn, who):
         """an application call: refused => the schedule is outside the premise"""
@@ -102,6 +115,18 @@ def body(ctx, shape):
             ctx.fail("application-call-raises", f"{type(e).__name__}@{exc_site(e)}")
         sess_ = c if who == "c" else s
         d = "cs" if who == "c" else "sc"
+        if not autoflush:
+            # the application does not flush after every call: what the call queued is learned from
+            # a drained deep copy; the wire only gets bytes at the explicit flush actions
+            now = sess.pending(ctx, sess_)
+            new = now[len(queued[d]) :] if len(now) >= len(queued[d]) else b""
+            queued[d] = now
+            if len(new):
+                try:
+                    sent[d].extend(decode_all(ctx, new))
+                except Exception as e:  # noqa: BLE001
+                    ctx.fail("library-cannot-decode-what-it-sent", f"{type(e).__name__}@{exc_site(e)}")
+            return
         data = ctx.tobytes(sess_.data_to_send())
         if len(data):
             pipe[d] = pipe[d] + data
@@ -110,6 +135,13 @@ def body(ctx, shape):
             except Exception as e:  # noqa: BLE001
                 # the peer runs the same decoder on the same bytes: it cannot receive this message
                 ctx.fail("library-cannot-decode-what-it-sent", f"{type(e).__name__}@{exc_site(e)}")
+
+    def flush(who, amount=None):
+        sess_ = c if who == "c" else s
+        d = "cs" if who == "c" else "sc"
+        data = ctx.tobytes(sess_.data_to_send(amount) if amount is not None else sess_.data_to_send())
+        pipe[d] = pipe[d] + data
+        queued[d] = sess.pending(ctx, sess_)
 
     def sent_is(d, **fields):
         """the message just put on the wire carries the arguments of the call"""
@@ -177,6 +209,12 @@ def body(ctx, shape):
                 types_only=ctx.bool(f"{tag}.typesonly"),
                 attributes=[ctx.str(f"{tag}.attr", 1, 0x61, 0x7A), "*"],
             )
+            F_ = ctx.L.filter
+            which = ctx.int(f"{tag}.filter", 0, 4)
+            for wi, mk in enumerate((lambda: F_.FilterAnd([]), lambda: F_.FilterOr([]), lambda: F_.FilterNot(F_.FilterPresent("o")), lambda: F_.FilterEquality("cn", ctx.bytes(f"{tag}.fv", 1)))):
+                if ctx.is_true(which == wi):
+                    a["filter"] = mk()
+                    break
             n0 = len(sent["cs"])
             app(lambda: c.search_request(**a), "c")
             if len(sent["cs"]) > n0:
@@ -262,6 +300,10 @@ def body(ctx, shape):
             if not srch:
                 ctx.assume(False)
             app(lambda: s.search_result_entry(srch[0][0], "cn=a", []), "s")
+        elif act in ("f_c", "f_s"):
+            flush(act[-1])
+        elif act in ("f_c_part", "f_s_part"):
+            flush(act[2], 5)
         elif act.startswith("d_"):
             _, d, how = act.split("_")
             if len(pipe[d]):
@@ -270,7 +312,7 @@ def body(ctx, shape):
             raise ValueError(act)
         ctx.observe(f"{step}:{act}", (c.state.name, s.state.name, len(pipe["cs"]), len(pipe["sc"])))
         # ---- agreement whenever everything sent has been delivered
-        if len(pipe["cs"]) == 0 and len(pipe["sc"]) == 0:
+        if len(pipe["cs"]) == 0 and len(pipe["sc"]) == 0 and (autoflush or (len(sess.pending(ctx, c)) == 0 and len(sess.pending(ctx, s)) == 0)):
             if not term[0]:
                 ctx.require(recvd["cs"] == len(sent["cs"]) and recvd["sc"] == len(sent["sc"]), "message-lost-with-empty-pipes")
             norm = lambda st: "OPENED" if st == "BEFORE_OPEN" else st  # noqa: E731
